@@ -551,7 +551,8 @@ def main(argv):
             for n, r in zip(nms, out):
                 if r != "OK " + FIELDS[n].enc(FIELDS[n].q - 1):
                     raise Inconclusive("modulus constant mismatch for %s on %s: %s" % (n, c, r))
-        m = run_rounds(1 if a.tier == "quick" else 3, "c01", "gen", (names, per // NCPU + 1, nbin // NCPU + 1), [(c, exes[c]) for c in cfgs], a.seed)
+        m = run_rounds(1 if a.tier == "quick" else 3, "c01", "gen", (names, per // NCPU + 1, nbin // NCPU + 1), [(c, exes[c]) for c in cfgs], a.seed,
+                       split=1 if a.tier == "quick" else 6, count_idx=(1, 2))
         rep.merge(m)
         rep.require("add:sum>=2^w", "add:sum-second-fold", "sub:borrow", "sub:re-borrow", "mul:operand>=q", "add:operand>=2q",
                     "mul:topbit", "mul:result-0/1/-1", "b127:mul-bit127-set", "xsquare:n=255", "mul_small:x=max", "chain:len8", "lazy:2-steps")
